@@ -208,6 +208,8 @@ def run(tier, seed):
     check_cross(chk, xcases, profiles)
     traces, concrete = record_traces(2500 if full else 300, seed)
     validate_traces(chk, traces, concrete, seed)
+    from harness import algebra
+    algebra.run(chk, ['A2', 'A4', 'A5'], full, seed)
     chk.exhaustive = full
     chk.assumptions = ['sort() itself is covered by C05; here it is used through the real JoinView',
                        'bounds: merge-loop model <= %d rows per side over 3 key values; generated tables: rectangular <= 3, '
